@@ -86,6 +86,10 @@ class Unique:
         self.tag = tag
 
 
+KWNAMES = ['sync', 'k0', 'func', 'args', 'kwargs', 'name', 'self', 't',
+           'start', 'f', 'max_history', 'average', 'fn', 'out', 'times']
+
+
 class Boom(Exception):
     pass
 
@@ -132,8 +136,11 @@ def execute(plan: dict[str, Any], tape: Any = None) -> dict[str, Any]:
                 st['got_args'] = None
                 args = tuple(Unique(('a', rank, oi, i))
                              for i in range(op.get('nargs', 0)))
-                kwargs = {f'k{i}': Unique(('k', rank, oi, i))
-                          for i in range(op.get('nkwargs', 0))}
+                # keyword names the wrapper itself might use internally
+                kwargs = {
+                    KWNAMES[(oi * 5 + i) % len(KWNAMES)]: Unique(
+                        ('k', rank, oi, i))
+                    for i in range(op.get('nkwargs', 0))}
                 clock.current[rank] = f['name']
                 stats['calls'] += 1
                 if f['sync']:
@@ -149,6 +156,12 @@ def execute(plan: dict[str, Any], tape: Any = None) -> dict[str, Any]:
                     clock.call_raised(rank)
                     if not st['raise'] or e is not st['exc']:
                         bad('C20.exception_changed', op=oi, rank=rank)
+                except Exception as e:  # noqa: BLE001
+                    # the wrapper itself failed
+                    clock.pending.pop(rank, None)
+                    bad('C20.wrapper_raised', op=oi, rank=rank,
+                        error=repr(e))
+                    continue
                 ga = st['got_args']
                 if ga is None or len(ga[0]) != len(args) or any(
                         x is not y for x, y in zip(ga[0], args)) or \
